@@ -1299,7 +1299,8 @@ class tensor:
         if prod(self.shape) != prod(shape):
             assert False, "Reshaping a tensor cannot change number of elements"
 
-        return ttb.tensor(self.data.reshape(shape, order=self.order), shape, copy=False)
+        # Reshape of contiguous data is a view, result must not alias self
+        return ttb.tensor(self.data.reshape(shape, order=self.order), shape, copy=True)
 
     def scale(
         self,
